@@ -26,7 +26,7 @@ var ev = kit.Ev("C19")
 func init() {
 	ev.Rule("the endpoint under test (client or server Authenticator, or a plain Stream doing multi-frame SendMessage / ReceiveCompleteMessage / typed reads) talks to an honest cedar peer through a wrapper that counts its Read and Write calls; " +
 		"a baseline run yields the number N of calls of each kind; then for EVERY k in [0,N) and each kind the k-th call blocks forever and, once the wrapper signals the stall, the context is cancelled (variant: a deadline that fires during the stall); " +
-		"further variants: cancelled before the start, cancelled after completion, context.Background(); shapes: no authentication, CLAIMTOBE, FS, TOKEN, SSL (harness certificate), resumed session, plain message exchange; " +
+		"further variants: cancelled before the start, cancelled after completion, context.Background(); shapes: no authentication, CLAIMTOBE, FS, TOKEN, SSL (harness certificate), resumed session, three refused handshakes (DENIED for encryption, no common method, SID_NOT_FOUND), plain message exchange; " +
 		"oracle: from the cancellation the call returns within 2 s (re-run twice before it counts) with a non-nil error (the context's own error for plain stream operations) and the connection has been closed; " +
 		"cancel-before: immediate error without I/O; cancel-after and Background: same outcome as the baseline; non-trivial = k > 0; distinct by (shape, role, kind, k, variant)")
 	ev.Assume("the 2 s bound only separates 'returns' from 'never returns' (typical return is well under a millisecond)")
@@ -110,6 +110,8 @@ func configs(shape string) (*security.SecurityConfig, *security.SecurityConfig) 
 		m = security.AuthToken
 	case "ssl":
 		m = security.AuthSSL
+	case "denied-enc", "denied-auth", "resume-unknown":
+		m = security.AuthClaimToBe
 	}
 	cc := kit.BaseConfig(lvl, security.SecurityRequired, m)
 	sl := security.SecurityRequired
@@ -124,6 +126,12 @@ func configs(shape string) (*security.SecurityConfig, *security.SecurityConfig) 
 	}
 	if shape == "ssl" && sslEnv != nil {
 		sslEnv.Apply(cc, sc)
+	}
+	switch shape {
+	case "denied-enc": // the server must encrypt, the client cannot: the server answers DENIED
+		cc.Encryption, cc.CryptoMethods = security.SecurityNever, nil
+	case "denied-auth": // no method in common although both require authentication
+		cc.AuthMethods = []security.AuthMethod{security.AuthFS}
 	}
 	return cc, sc
 }
@@ -162,7 +170,7 @@ func runCase(c Case) outcome {
 	}
 	st := newStall(endConn, kind, c.K)
 	ccfg, scfg := configs(c.Shape)
-	if c.Shape == "resumed" {
+	if c.Shape == "resumed" || c.Shape == "resume-unknown" {
 		r := kit.Handshake(ccfg, scfg, 3*time.Second)
 		if r.CErr != nil || r.SErr != nil {
 			o.err = fmt.Errorf("harness: cannot establish the session to resume: %v / %v", r.CErr, r.SErr)
@@ -170,6 +178,9 @@ func runCase(c Case) outcome {
 		}
 		_ = r.CConn.Close()
 		_ = r.SConn.Close()
+		if c.Shape == "resume-unknown" { // the server has forgotten the session: it answers SID_NOT_FOUND
+			security.ClearSessionCache()
+		}
 	}
 	// honest peer
 	peerCtx, peerCancel := context.WithTimeout(context.Background(), 6*time.Second)
@@ -359,7 +370,10 @@ func judge(c Case, o outcome, base outcome) string {
 	return ""
 }
 
-var shapes = []string{"noauth", "claimtobe", "fs", "token", "ssl", "resumed"}
+var shapes = []string{"noauth", "claimtobe", "fs", "token", "ssl", "resumed", "denied-enc", "denied-auth", "resume-unknown"}
+
+// failing shapes: the honest baseline ends in an error (a refusal is sent and read); cancellation must still work at every step of it
+var failingShape = map[string]bool{"ssl": true, "denied-enc": true, "denied-auth": true, "resume-unknown": true}
 
 func TestC19Stalls(t *testing.T) {
 	type job struct {
@@ -381,7 +395,7 @@ func TestC19Stalls(t *testing.T) {
 			t.Errorf("C19 violated: baseline did not return (%s/%s)", p.shape, p.role)
 			continue
 		}
-		if p.shape != "ssl" && !base.ok {
+		if !failingShape[p.shape] && !base.ok {
 			kit.Violation("C19", fmt.Sprintf("baseline run failed: %v", base.err), Case{Shape: p.shape, Role: p.role, Variant: "baseline"})
 			t.Errorf("C19 violated: baseline failed (%s/%s): %v", p.shape, p.role, base.err)
 			continue
@@ -443,7 +457,7 @@ func TestC19Stalls(t *testing.T) {
 		}(j)
 	}
 	wg.Wait()
-	ev.Exhaustive("every Read index and every Write index of the baseline run of each (shape, role): 6 handshake shapes x {client, server} + plain {sender, receiver}; a cancel and a deadline at every index")
+	ev.Exhaustive("every Read index and every Write index of the baseline run of each (shape, role): 9 handshake shapes (6 completing, 3 ending in a refusal: DENIED for encryption, no common method, SID_NOT_FOUND) x {client, server} + plain {sender, receiver}; a cancel and a deadline at every index")
 }
 
 func TestC19Replay(t *testing.T) {
